@@ -5,7 +5,7 @@ CONSTANTS
   Flavor = "beacon"
   MaxSaveFail = 1
   MaxArchFail = 1
-  MaxRestarts = 2
+  MaxRestarts = 1
   MaxReadSkip = 1
   MaxChainErr = 1
 INVARIANTS TypeOK CacheIsStorage ExactAfterCleanRestart NoDuplicates
